@@ -27,7 +27,7 @@ PROPS = {
                 "validator x received-at URL =/!= ACS; single perturbations exhaustively, 2-3-fold sampled",
     },
     "C04": {
-        "modules": ["SamlVerif.Props.C04", "SamlVerif.Props.TransSP", "SamlVerif.Props.TransParse", "SamlVerif.Props.PureSaml", "SamlVerif.Props.PureSamlsp"],
+        "modules": ["SamlVerif.Props.C04", "SamlVerif.Props.TransSP", "SamlVerif.Props.TransParse", "SamlVerif.Props.TransArtifact", "SamlVerif.Props.PureSaml", "SamlVerif.Props.PureSamlsp"],
         "trusted_base": SP_TB,
         "assumptions": [],
         "rule": "outstanding-ID sets {empty, one, several, containing \"\", near-miss} x InResponseTo {match, other, empty, prefix, extension} at response "
@@ -221,7 +221,7 @@ PROPS["C08"] = {
 }
 
 PROPS["C01"] = {
-    "modules": ["SamlVerif.Props.C01", "SamlVerif.Proofs.Tree", "SamlVerif.Props.TransParse", "SamlVerif.Props.PureSaml"],
+    "modules": ["SamlVerif.Props.C01", "SamlVerif.Proofs.Tree", "SamlVerif.Props.TransParse", "SamlVerif.Props.TransArtifact", "SamlVerif.Props.PureSaml"],
     "trusted_base": ["symbolic cryptography: signature values, digest values and certificates are tokens; a ledger (built by the harness from every real signing event, honest or attacker) says which key signed which canonical SignedInfo "
                      "and which canonical content a digest token stands for (unforgeability + collision resistance are the hypothesis HonestLedger of C01_no_forgery)",
                      "modelled, not verified: XML tokenisation (xrv, encoding/xml, etree reader) - the model starts from the parsed tree; what encoding/xml extracts from an element (struct views of the Response header, of each candidate Assertion "
